@@ -83,3 +83,16 @@ Theorem group_working_set_gradient_sparse_eq_dense :
   = @bcd_construct_grad R _ dgp gg_dense X y w Xw ws.
 Proof. exact bcd_construct_grad_sparse_eq_dense. Qed.
 Print Assumptions group_working_set_gradient_sparse_eq_dense.
+
+(* ProxNewton: the working-set gradient of the regenerated sparse kernel equals the dense one (any raw gradient) *)
+Require Import SK.Gen.KernPN SK.Lemmas.PnKernels.
+Theorem prox_newton_gradient_sparse_eq_dense : forall (raw_grad : list R -> list R -> res (list R))
+    (n : nat) (M : csc) (X : list (list R)) (y : list R),
+  (forall j, (0 <= j < Z.of_nat (length X))%Z ->
+     exists lo hi, col_bounds M j lo hi /\ wf_col n M lo hi /\ mcol X j = Ok (dense_col n M lo hi)) ->
+  (forall Xw g, length Xw = n -> raw_grad y Xw = Ok g -> length g = n) ->
+  forall ws w Xw, Forall (fun j => (0 <= j < Z.of_nat (length X))%Z) ws -> length Xw = n ->
+  @pn_construct_grad_sparse R _ raw_grad (cdata M) (cindptr M) (cindices M) y w Xw ws
+  = @pn_construct_grad R _ raw_grad X y w Xw ws.
+Proof. exact pn_construct_grad_sparse_eq_dense. Qed.
+Print Assumptions prox_newton_gradient_sparse_eq_dense.
